@@ -150,6 +150,29 @@ def oracle(impl, o):
             # equality ignores custom entries by design (DESIGN.md 5); only flag built-in differences
             if all(k != 0 for k in _kinds(a)):
                 fails.append({'key': 'eq-different-paths', 'what': 'equal treespecs with different paths'})
+    # a hash() that raised once (a key whose __hash__ fails at that moment) must leave no trace
+    import optree
+    from universe import FlakyKey, UserExc
+    tree = {FlakyKey(1): 1, FlakyKey(2): (2, 3)}
+    s1 = optree.tree_structure(tree)
+    h_before = hash(s1)
+    FlakyKey.broken = True
+    try:
+        try:
+            hash(s1)
+            fails.append({'key': 'hash-fault-swallowed', 'what': 'hash(treespec) did not propagate the exception of a key hash'})
+        except UserExc:
+            pass
+    finally:
+        FlakyKey.broken = False
+    s2 = optree.tree_structure({FlakyKey(1): 5, FlakyKey(2): (6, 7)})
+    if hash(s1) != h_before or hash(s1) != hash(s2) or not (s1 == s2):
+        fails.append({'key': 'hash-after-failed-hash', 'what': f'after a hash() call that raised, hash(s) = {hash(s1)} but an equal treespec hashes to {hash(s2)} (before: {h_before})'})
+    del s1
+    s3 = optree.tree_structure((1, [2, {'a': 3}]))
+    s4 = optree.tree_structure((4, [5, {'a': 6}]))
+    if hash(s3) != hash(s4):
+        fails.append({'key': 'hash-after-failed-hash', 'what': 'equal treespecs hash differently after an earlier hash() call raised'})
     cls = o['class']
     if cls in ('relabel',) or cls.startswith('route:'):
         if cls not in ('route:transform-onelevel',) and not e1:
